@@ -133,6 +133,22 @@ func concBody(x *Exec, raw json.RawMessage) {
 		}
 	}
 
+	// executor tasks that are still queued are pending maintenance
+	r.RunDeferred(0)
+	if has(p.Oracles, "bound") && (p.Cfg.MaxSize > 0 || p.Cfg.MaxWeight > 0) {
+		// if the cache reports no outstanding maintenance the bound must hold already, without a forced CleanUp
+		if st := c.VerifStatus(); st.DrainStatus == 0 && st.WriteBufferSize == 0 {
+			x.Count("quiescent-without-cleanup")
+			var sum uint64
+			for _, v := range c.All() {
+				sum += weightOf(p.Cfg, v)
+			}
+			if max := c.VerifMaximum(); sum > max {
+				x.Fail("bound-exceeded", "no-maintenance-pending@"+p.Label, "total weight %d exceeds the maximum %d although every call returned and the cache reports no pending maintenance", sum, max)
+			}
+		}
+	}
+
 	// quiescence + pending maintenance
 	for _, op := range p.Post {
 		r.Do(-1, op)
